@@ -28,6 +28,7 @@ type Evidence struct {
 	unknown  int
 	solverS  float64
 	replayed int
+	passReplayed int
 	samples  []interface{}
 	viol     int
 	wall     float64
@@ -159,6 +160,7 @@ func (e *Evidence) write() error {
 		"repo_files_sha256_prefix":      files,
 		"harnesses":                     e.harness,
 		"suites":                        e.suites,
+		"completed_paths_replayed_natively": e.passReplayed,
 		"queries":                       e.queries,
 		"unsat":                         e.unsat,
 		"sat":                           e.sat,
